@@ -8,7 +8,8 @@
 (*                                                                         *)
 (* A container holds members 1..n; member j has a value kind, a text of    *)
 (* abstract length len[j] and is followed by sep[j] white-space bytes      *)
-(* (sep[n] = trailing white-space).  The writer Prop computes the header   *)
+(* (sep[n] = trailing white-space; sep[j] may be 0 when member j+1 starts  *)
+(* with a delimiter).  The writer Prop computes the header   *)
 (* offsets; the reader Mech slices and parses.  Prop: the compressed twin  *)
 (* resolves to the same value as the direct twin.                          *)
 (***************************************************************************)
@@ -22,6 +23,7 @@ CONSTANTS Kinds,      \* value kinds
           Dev
 
 IntLike == {"int", "negint"}       \* kinds whose text is a single integer token
+DelimStart == {"name", "emptyname", "lit", "hex", "arr", "dict", "nested"}   \* kinds whose text starts with a delimiter
 
 VARIABLES n, kinds, len, sep, idx, filter, hdrsep, lenstore,
           phase,                  \* "choose" | "slice" | "parse" | "done"
@@ -42,7 +44,9 @@ Choose ==
   /\ \E nn \in 1..MaxN :
        /\ n' = nn
        /\ \E ks \in [1..nn -> Kinds], ls \in [1..nn -> 1..2], ss \in [1..nn -> 0..1], i \in 1..nn :
-            /\ \A j \in 1..(nn - 1) : ss[j] = 1           \* members are separated by white-space
+            \* members are separated by white-space, except that none is needed in front of a member
+            \* whose text starts with a delimiter ( / ( < [ << )
+            /\ \A j \in 1..(nn - 1) : ss[j] = 0 => ks[j + 1] \in DelimStart
             /\ kinds' = ks /\ len' = ls /\ sep' = ss /\ idx' = i
   /\ filter' \in Filters /\ hdrsep' \in HdrSeps /\ lenstore' \in LenStores
   /\ (lenstore' # "direct" => kinds'[idx'] = "int")       \* the /Length twin is an integer member
